@@ -136,8 +136,8 @@ def run(R, only=None):
                        "(preservation of the token by the real libraries is what the correspondence observes)",
                        "zipfile"]
     R.assumptions += ["floats are identified with their JSON text (repr): CPython's float(repr(x)) == x is assumed, exercised on the generated floats",
-                      "C05_roundtrip_partial is proved on the decidable fragment c05_guard (arbitrary sharing; bytes / bytearray and rank-1 object arrays included; "
-                      "see coq/props/C05.v for what is inside and what is still missing: object arrays of rank 0 or >= 2, scipy sparse arrays); "
+                      "C05_roundtrip_partial is proved on the decidable fragment c05_guard (arbitrary sharing; bytes / bytearray and object arrays of EVERY rank "
+                      "-- 0, zero-length axes, cells anywhere in the fragment -- included; see coq/props/C05.v for what is inside and what is still missing: scipy sparse arrays); "
                       "supported values outside it are covered by the per-case model evaluation and the correspondence only",
                       "the identity pattern of objects returned by __reduce__()/__getstate__()/get_state() is the same in the emitter's call and in the dump's call"]
     if snap is None:
@@ -182,6 +182,11 @@ WITNESSES = [
     ["defaultdict", "list", [[["int", 1], ["list", [["int", 2]]]]]],                       # D25 (fixed in the repo)
     ["dict", [[["npscalar", "<i8", 3], ["int", 1]], [["npscalar", "<f8", 4], ["int", 2]], [["float", "0x1.8p+1"], ["none"]]]],
     ["objarray", [2, 2], [["int", 1], ["str", "s"], ["none"], ["float", "0x1.4p+1"]]],
+    # D10 / C13-F1 (fixed in the repo): object arrays of rank 0 / rank >= 2 with sequence cells / zero-length axes keep their shape;
+    # the shape tuple of a rank-0 array is the empty-tuple singleton, which may be a cell as well
+    ["objarray", [], [["list", [["int", 1], ["int", 2]]]]],
+    ["objarray", [2, 2], [["list", [["int", 1], ["int", 2]]], ["tuple", [["int", 3]]], ["tuple", []], ["list", []]]],
+    ["list", [["objarray", [2, 0], []], ["objarray", [0, 2], []], ["objarray", [], [["tuple", []]]], ["objarray", [1, 2, 1], [["dict", [[["str", "k"], ["ref", 0]]]], ["ref", 0]]]]],
     ["list", [["str", "\U0001f600é\x00\"\\\n"], ["bigint", str(10 ** 400)], ["float", "nan"], ["float", "-0x0.0p+0"]]],
     ["tuple", [["list", []], ["ref", 0], ["ref", 0]]],
     ["odict", [[["str", "b"], ["int", 1]], [["str", "a"], ["int", 2]]]],
